@@ -304,7 +304,18 @@ package schema
 //@   props C08
 //@   skip frame
 //@   note only the assertion below and panic-freedom are checked; the merged reader built from the collected channel streams is outside (newMultiStreamReader, toStream are not under contract); type invariants of the readers are assumed in the precondition
-//@   requires forall(i int :: 0 <= i && i < len(srs) ==> srs[i] != nil && 0 <= srs[i].typ && srs[i].typ <= readerTypeChild && (srs[i].typ == readerTypeArray ==> srs[i].ar != nil && 0 <= srs[i].ar.index && srs[i].ar.index <= len(srs[i].ar.arr)) && (srs[i].typ == readerTypeMultiStream ==> srs[i].msr != nil) && (srs[i].typ == readerTypeWithConvert ==> srs[i].srw != nil) && (srs[i].typ == readerTypeChild ==> srs[i].csr != nil))
+//@   requires forall(i int :: 0 <= i && i < len(srs) ==> srs[i] != nil)
+//@   assumes[reader_invariants] forall(i int :: 0 <= i && i < len(srs) ==> 0 <= srs[i].typ && srs[i].typ <= readerTypeChild && (srs[i].typ == readerTypeArray ==> srs[i].ar != nil && 0 <= srs[i].ar.index && srs[i].ar.index <= len(srs[i].ar.arr)) && (srs[i].typ == readerTypeMultiStream ==> srs[i].msr != nil) && (srs[i].typ == readerTypeWithConvert ==> srs[i].srw != nil) && (srs[i].typ == readerTypeChild ==> srs[i].csr != nil))
 //@   after call 2 append: assert[only_unread_items_merged] @C08 len(result) == len(arr) + len(sr.ar.arr) - sr.ar.index && forall(j int :: 0 <= j && j < len(sr.ar.arr) - sr.ar.index ==> result[len(arr) + j] == sr.ar.arr[sr.ar.index + j])
 //@   loop 1:
 //@     invariant[fresh_parts] (arr == nil || fresh(arr)) && (ss == nil || fresh(ss))
+
+//@ func newStreamReaderWithConvert
+//@   props C08
+//@   modifies fresh()
+//@   ensures[reader] result != nil && fresh(result) && result.typ == readerTypeWithConvert && result.srw != nil && fresh(result.srw) && result.srw.sr == origin
+
+//@ func StreamReaderWithConvert
+//@   props C08
+//@   modifies fresh()
+//@   ensures[reader] result != nil && fresh(result)
